@@ -1,16 +1,13 @@
 CONSTANTS
   TBle = 30000
   TDisc = 20000
-  MaxSteps = 4
+  MaxSteps = 5
   OpKinds = {}
   Msgs <- SubMsgs
-  MaxChunk = 2
-  GenMode = FALSE
+  MaxChunk = 1
+  GenMode = TRUE
   UseSubs = TRUE
 SPECIFICATION MSpec
 VIEW mview
 CONSTRAINT Horizon
-INVARIANT ImgKeysUnique
-INVARIANT CameraConcat
-PROPERTY OnePerMessage
 CHECK_DEADLOCK FALSE
